@@ -52,24 +52,41 @@ func main() {
 	}
 	defer drvQ.Close()
 
-	run := func(hist []string) *outcome {
+	// run executes a history on the implementation; withModel also on the Lean model.
+	// Without the model only the monitors judge (a model disagreement does not stop the run).
+	run := func(hist []string, withModel bool) *outcome {
 		if isQuota(hist) {
-			return runQuota(hist, drvQ)
+			if withModel {
+				return runQuota(hist, drvQ)
+			}
+			return runQuota(hist, nil)
 		}
-		return runBitmap(hist, drvB)
+		if withModel {
+			return runBitmap(hist, drvB)
+		}
+		return runBitmap(hist, nil)
 	}
 
 	report := func(hist []string, out *outcome) {
+		// A disagreement with the model is only reported as such when the monitors, run on
+		// the implementation alone over the same history followed by a final drain (free /
+		// close everything, re-allocate the full capacity / quota), find nothing.
+		if out.monitor == "" {
+			ext := append(append([]string(nil), hist...), "drain 12345")
+			if r := run(ext, false); r.monitor != "" {
+				hist, out = ext, r
+			}
+		}
 		wantMonitor := out.monitor != ""
 		fails := func(cand []string) bool {
-			r := run(cand)
 			if wantMonitor {
-				return r.monitor != ""
+				return run(cand, false).monitor != ""
 			}
+			r := run(cand, true)
 			return r.mismatch != "" && r.monitor == ""
 		}
 		min := hx.Shrink(hist, fails)
-		r := run(min)
+		r := run(min, !wantMonitor)
 		if !r.failed() { // should not happen; keep the original
 			min, r = hist, out
 		}
@@ -100,7 +117,10 @@ func main() {
 			fmt.Fprintln(os.Stderr, err)
 			os.Exit(3)
 		}
-		out := run(f.History)
+		out := run(f.History, true)
+		if m := run(f.History, false); m.monitor != "" {
+			out = m
+		}
 		res.Evaluations = out.steps
 		res.PerProperty["C15"] = out.steps
 		if out.failed() {
@@ -117,6 +137,9 @@ func main() {
 		nb, nq = 6000*o.Scale, 8000*o.Scale
 	}
 	rng := hx.NewRand(o.Seed)
+	// Generation goes on after a mere disagreement with the model (reported once per part):
+	// a later history may show that the changed behaviour actually violates the property.
+	var haveViolation, haveMismatch bool
 	account := func(prefix string, hist []string, out *outcome, nontrivial bool) {
 		res.Evaluations += out.steps
 		res.TracesVsImpl++
@@ -129,17 +152,25 @@ func main() {
 			}
 		}
 		res.History(hist, nontrivial)
-		if out.failed() {
+		if out.monitor != "" || (out.mismatch != "" && !haveMismatch) {
+			before := len(res.Findings)
 			report(hist, out)
+			for _, f := range res.Findings[before:] {
+				if f.Kind == "violation" {
+					haveViolation = true
+				} else {
+					haveMismatch = true
+				}
+			}
 		}
 	}
-	for h := 0; h < nb && len(res.Findings) == 0; h++ {
+	for h := 0; h < nb && !haveViolation; h++ {
 		hist, out := genBitmap(rng, drvB, thorough)
 		fl := out.flags
 		account("bitmap:", hist, out, fl["exhausted"] && fl["free"] && fl["drain"] && !strings.HasPrefix(hist[0], "new 0"))
 	}
-	bitmapFindings := len(res.Findings)
-	for h := 0; h < nq && len(res.Findings) == bitmapFindings; h++ {
+	haveViolation, haveMismatch = false, false
+	for h := 0; h < nq && !haveViolation; h++ {
 		hist, out := genQuota(rng, drvQ, thorough)
 		fl := out.flags
 		baseFail := fl["new-base"] || fl["trunc-base"] || fl["write-base"] || fl["close-base"]
